@@ -401,6 +401,21 @@ def rule_lookup_delegation(ctx, prog, rule="R13"):
             ok = bad is None and strip(re_) == ("field", ("param", 1, "self"), "projections")
     ctx.ob(rule, "Grid::shape/delegates", ok, gs.where(), "= projections.iter().map(Bins::len).collect()" if ok else
            "Grid::shape is `%s`" % fmt(r)[:160], what="grid shape not the per-axis bin counts in order")
+    # Grid::ndim is the number of projections (it is the arity every point / index is compared with)
+    gn = prog.find("histogram::grid::Grid::<A>::ndim")
+    r = strip(gn.return_expr())
+    for _ in range(3):
+        if isinstance(r, tuple) and r[0] == "call" and r[1] in ("deref", "as_slice") and r[3]:
+            r = strip(r[3][0])
+    ok = isinstance(r, tuple) and r[0] == "call" and r[1] == "len" and len(r[3]) == 1
+    if ok:
+        recv = strip(r[3][0])
+        for _ in range(3):
+            if isinstance(recv, tuple) and recv[0] == "call" and recv[1] in ("deref", "as_slice", "projections") and recv[3]:
+                recv = strip(recv[3][0])
+        ok = recv == ("field", ("param", 1, "self"), "projections") or recv[:2] == ("param", 1)
+    ctx.ob(rule, "Grid::ndim/is-projection-count", ok, gn.where(), "= self.projections.len()" if ok else "Grid::ndim is `%s`" % fmt(r)[:120],
+           what="grid arity is not the number of projections")
 
 
 # ------------------------------------------------------------------------------------------- C11
@@ -533,38 +548,19 @@ def rule_r16(ctx, prog, rule="R16"):
         detail = "one add_observation per item of axis_iter(self, ..) on Histogram::new(grid); result ignored; histogram returned" if ok else \
             "new(grid)=%s rows-of-self=%s result-used=%s returns-histogram=%s" % (newh, rows, used, ret == h)
     ctx.ob(rule, "histogram/one-insert-per-row", ok, hb.where(), detail, what="matrix form does not insert each row once")
+    # the accessor shows the stored counts as they are (a reversed / transposed / sliced view would move every count)
+    cb_ = prog.find("histogram::histograms::Histogram::<A>::counts")
+    r = strip(cb_.return_expr())
+    okc = isinstance(r, tuple) and r[0] == "call" and r[1] in ("view", "clone", "to_owned") and len(r[3]) == 1 and \
+        strip(r[3][0]) == ("field", ("param", 1, "self"), "counts")
+    ctx.ob(rule, "Histogram::counts/plain-view", okc, cb_.where(), "= self.counts.view()" if okc else "Histogram::counts is `%s`" % fmt(r)[:120],
+           what="count accessor does not show the stored counts at their own indices")
 
 
 def rule_grid_index_of(ctx, prog, rule="R9"):
+    _grid_per_axis(ctx, prog, "index_of", rule)
+    _grid_per_axis(ctx, prog, "index", rule)
     g = prog.find("histogram::grid::Grid::<A>::index_of")
-    grp = [g] + prog.closures_of(g)
-    calls = [(b, bb, t) for b in grp for bb, t in b.calls()
-             if callee_name(t) == "index_of" and "Bins" in (t["callee"].get("path") or "")]
-    ok = False
-    detail = "%d calls to Bins::index_of" % len(calls)
-    if len(calls) == 1:
-        b, bb, t = calls[0]
-        a = b.call_arg_exprs(bb)
-        rs = item_component_source(prog, b, a[0])
-        vs = item_component_source(prog, b, a[1])
-        if rs is not None and vs is not None:
-            recv_ok = strip(rs[1]) == ("field", ("param", 1, "self"), "projections") and not rs[0].is_closure
-            val_ok = strip(vs[1])[:2] == ("param", 2) and not vs[0].is_closure
-            # results kept in order: collect(map(..)) returned, or a single push per item into the returned vector
-            r = strip(g.return_expr())
-            in_order = False
-            if isinstance(r, tuple) and r[0] == "call" and r[1] == "collect":
-                in_order = True
-            else:
-                tg = prog.tracked(g)
-                pushes = [pb for pb, pt in tg.calls() if callee_name(pt) == "push"]
-                in_order = len(pushes) == 1
-            ok = recv_ok and val_ok and in_order
-            detail = "coordinate j is looked up in projection j (Bins::index_of(bins_j, v_j) on the components of one undisturbed zip), results kept in order" if ok else \
-                "receiver from projections=%s value from point=%s in-order=%s" % (recv_ok, val_ok, in_order)
-        else:
-            detail = "the operands of Bins::index_of are not components of one zip item"
-    ctx.ob(rule, "Grid::index_of/coordinate-axis-pairing", ok, g.where(), detail, what="coordinate j not paired with axis j")
     # arity assert dominates the zip
     arity = False
     for bb in g.live_blocks():
@@ -579,6 +575,44 @@ def rule_grid_index_of(ctx, prog, rule="R9"):
                         arity = True
     ctx.ob(rule, "Grid::index_of/arity-assert", arity, g.where(), "point.len() == ndim() asserted before pairing" if arity else
            "no arity assertion dominates the pairing: a short point is silently truncated", what="arity not checked")
+
+
+def _grid_per_axis(ctx, prog, meth, rule):
+    """Grid::index_of / Grid::index apply Bins::<meth> of projection j to coordinate j and keep the results in axis order"""
+    g = prog.find("histogram::grid::Grid::<A>::%s" % meth)
+    grp = [g] + prog.closures_of(g)
+    calls = [(b, bb, t) for b in grp for bb, t in b.calls()
+             if callee_name(t) == meth and "Bins" in (t["callee"].get("path") or "")]
+    ok = False
+    detail = "%d calls to Bins::%s" % (len(calls), meth)
+    if len(calls) == 1:
+        b, bb, t = calls[0]
+        a = b.call_arg_exprs(bb)
+        rs = item_component_source(prog, b, a[0])
+        vs = item_component_source(prog, b, a[1])
+        if rs is not None and vs is not None:
+            recv_ok = strip(rs[1]) == ("field", ("param", 1, "self"), "projections") and not rs[0].is_closure
+            val_ok = strip(vs[1])[:2] == ("param", 2) and not vs[0].is_closure
+            # results kept in order: collect(map(..)) returned, or a single push per item into the returned vector
+            r = strip(g.return_expr())
+            in_order = False
+            if isinstance(r, tuple) and r[0] == "call" and r[1] == "collect":
+                # … through adaptors that keep the order (no rev / skip / filter between the pairing and the collect)
+                from .rules_layout import producer_chain
+                _rb, _re, chain, bad = producer_chain(prog, g, r[3][0])
+                in_order = bad is None
+                if bad is not None:
+                    detail = "the per-axis results pass through `%s` before they are collected" % bad.lstrip("?")
+            else:
+                tg = prog.tracked(g)
+                pushes = [pb for pb, pt in tg.calls() if callee_name(pt) == "push"]
+                in_order = len(pushes) == 1
+            ok = recv_ok and val_ok and in_order
+            detail = "coordinate j goes to projection j (Bins::%s(bins_j, v_j) on the components of one undisturbed zip), results kept in axis order" % meth if ok else \
+                ("receiver from projections=%s value from the argument=%s in-order=%s" % (recv_ok, val_ok, in_order) if in_order or not (recv_ok and val_ok) else detail)
+        else:
+            detail = "the operands of Bins::%s are not components of one zip item" % meth
+    ctx.ob(rule, "Grid::%s/coordinate-axis-pairing" % meth, ok, g.where(), detail, what="coordinate j not paired with axis j")
 
 
 # ------------------------------------------------------------------------------------------- R20 lookup decision tree
